@@ -125,12 +125,23 @@ def check_degree(e, k):
                 a = 1.75
             if b == 1.0:
                 b = 3.25
-            path = e.write_replay(ob.name, {"kind": "E2-native-logint", "degree": k, "p": pv, "kx": kxv, "ky": kyv, "a": a, "b": b,
-                                            "indefinite": use_indef,
-                                            "statement": "F(b)-F(a) equals the integral of p(ln t) over [a,b]; F(knot.x)=knot.y"})
-            msgs = native_antiderivative_check(e, k, pv, kxv, kyv, a, b, use_indef)
-            if msgs:
-                return True, path, "; ".join(msgs[:2])
+            # the solver's knot may sit where the real logarithm hides the deviation (ln is free in the query: a model with
+            # knot.x = 1 or with an ln value no real point has); the model's coefficients are therefore also tried with knots on
+            # both sides of 1, near 1 and far from it -- every one of them is an input the property quantifies over
+            cands = [kxv] + [c for c in (0.5, 2.5, 0.125, 10.0, 1.0 - 2.0 ** -10, 1.0 + 2.0 ** -10, 1e-3) if c != kxv]
+            if all(p == 0 for p in pv):
+                pv = [1.0 + i for i in range(len(pv))]
+            path = None
+            for kxc in cands:
+                pth = e.write_replay(ob.name, {"kind": "E2-native-logint", "degree": k, "p": pv, "kx": kxc, "ky": kyv, "a": a, "b": b,
+                                               "indefinite": use_indef,
+                                               "statement": "F(b)-F(a) equals the integral of p(ln t) over [a,b]; F(knot.x)=knot.y"})
+                path = path or pth
+                msgs = native_antiderivative_check(e, k, pv, kxc, kyv, a, b, use_indef)
+                if msgs:
+                    return True, pth, "; ".join(msgs[:2])
+                if use_indef:
+                    break
             return False, path, "model does not violate the statement natively"
         return replay
 
